@@ -441,6 +441,7 @@ class Explorer:
             prefix = work.pop()
             c = PathCtx(self, prefix)
             _CUR[0] = c
+            out = None
             try:
                 out = fn(c)
                 results.append((c, out))
